@@ -19,7 +19,9 @@ import (
 	"math/rand"
 	"os"
 	"path/filepath"
+	"sort"
 	"strings"
+	"time"
 
 	"github.com/syndtr/goleveldb/leveldb/opt"
 
@@ -167,13 +169,70 @@ type vcase struct {
 
 func isDeletedSize(s int32) bool { return types.Size(s).IsDeleted() }
 
+// aliasVictim: a stored key k' != key with key-k' a positive multiple of 2^32 (the CompactSection key space is
+// uint32 relative to the section start). Measurement for the signature only.
+func aliasVictim(ref refMap, key uint64) (uint64, bool) {
+	for k, e := range ref {
+		if e.st != 0 && k < key && (key-k)%(1<<32) == 0 {
+			return k, true
+		}
+	}
+	return 0, false
+}
+
+const aliasTag = "stored-key+n*2^32"
+
+// resyncAliases: after a (listed) aliasing delete the reference follows the real state of every
+// stored key congruent to key modulo 2^32 — which one the delete hit depends on the section layout.
+func resyncAliases(get func(uint64) (int64, int32, bool), ref refMap, key uint64) {
+	for k, e := range ref {
+		if k == key || e.st == 0 || (key-k)%(1<<32) != 0 {
+			continue
+		}
+		_, size, ok := get(k)
+		if ok && !isDeletedSize(size) {
+			e.st = 1
+		} else {
+			e.st = 2
+		}
+	}
+}
+
+// offsetDifference names (measurement only) how a stale (offset,size) differs from the expected one.
+func offsetDifference(gotOff, wantOff int64, gotSize, wantSize int32) string {
+	if gotSize != wantSize {
+		return "size"
+	}
+	x := uint64(gotOff) ^ uint64(wantOff)
+	if x != 0 && x&((1<<35)-1) == 0 {
+		return "only-5th-offset-byte"
+	}
+	return "offset"
+}
+
 // checkGet compares one lookup with the reference. Returns false on an unlisted violation.
 func checkGet(level, impl string, got func(uint64) (int64, int32, bool), ref refMap, key uint64, role string, detail interface{}) bool {
 	off, size, ok := got(key)
 	e := ref.get(key)
 	r.Eval(1)
+	diff := ""
 	viol := func(class, msg string) bool {
 		sig := lib.Sig{"op": "get", "class": class, "impl": impl, "level": level, "input": inputClass(e, role), "build": build}
+		if diff != "" {
+			sig["difference"] = diff
+		}
+		if class == "foreign-entry" {
+			if _, ok := aliasVictim(ref, key); ok {
+				sig["alias"] = aliasTag
+			}
+		}
+		kr := e.role
+		if kr == "" {
+			kr = role
+		}
+		if kr != "" {
+			sig["keyrole"] = kr
+		}
 		return r.Violation(sig, map[string]interface{}{"msg": msg, "key": key, "got_ok": ok, "got_off": off, "got_size": size,
 			"ref_state": e.st, "ref_off": e.off, "ref_size": e.size, "case": detail})
 	}
@@ -193,6 +252,7 @@ func checkGet(level, impl string, got func(uint64) (int64, int32, bool), ref ref
 			}
 			e.st = 2
 		} else if off != e.off || size != e.size {
+			diff = offsetDifference(off, e.off, size, e.size)
 			if viol("stale-entry", "lookup of a live key returned another (offset,size) than the latest put") {
 				return false
 			}
@@ -246,6 +306,10 @@ func runValueCase(c vcase) bool {
 					} else {
 						sig["returned"] = "other"
 					}
+					if _, ok := aliasVictim(ref, o.Key); ok && e.st == 0 && got > 0 {
+						sig["alias"] = aliasTag
+						resyncAliases(m.Get, ref, o.Key) // another stored key was deleted instead (follow the real state after reporting)
+					}
 					if r.Violation(sig, map[string]interface{}{"msg": "Delete returned a wrong removed size", "got": got, "want": want, "at": i, "case": c}) {
 						okAll = false
 					}
@@ -277,6 +341,7 @@ func checkVisit(impl string, m vmap, ref refMap, detail interface{}) bool {
 	first := true
 	seen := map[uint64]bool{}
 	bad := ""
+	visitDiff := ""
 	var badKey uint64
 	inputOf := "plain"
 	m.Visit(func(k uint64, off int64, size int32) {
@@ -298,6 +363,9 @@ func checkVisit(impl string, m vmap, ref refMap, detail interface{}) bool {
 		case e.st == 1:
 			if isDeletedSize(size) || off != e.off || size != e.size {
 				bad, badKey, inputOf = "visit-stale-entry", k, inputClass(e, "")
+				if !isDeletedSize(size) {
+					visitDiff = offsetDifference(off, e.off, size, e.size)
+				}
 			}
 		case e.st == 2:
 			if !isDeletedSize(size) {
@@ -315,7 +383,11 @@ func checkVisit(impl string, m vmap, ref refMap, detail interface{}) bool {
 	}
 	r.Eval(1)
 	if bad != "" {
-		return !r.Violation(lib.Sig{"op": "visit", "class": bad, "impl": impl, "level": "valuemap", "input": inputOf, "build": build},
+		sig := lib.Sig{"op": "visit", "class": bad, "impl": impl, "level": "valuemap", "input": inputOf, "build": build}
+		if visitDiff != "" {
+			sig["difference"] = visitDiff
+		}
+		return !r.Violation(sig,
 			map[string]interface{}{"msg": "AscendingVisit disagrees with the reference", "key": badKey, "case": detail})
 	}
 	return true
@@ -382,10 +454,20 @@ func valueMapPart() {
 			prefill := P
 			if impl == "memdb" {
 				prefill = 8 // no look-back window there; keep the db small
+				maxLen-- // opening an in-memory leveldb per sequence is the expensive part
 			}
 			dummy := make([]op, len(al))
 			n := 0
 			enumerate(dummy, maxLen, func(seq []int) bool {
+				if pass == 1 {
+					hasZ := false
+					for _, x := range seq {
+						hasZ = hasZ || al[x].zero
+					}
+					if !hasZ {
+						return true // enumerated by pass 0
+					}
+				}
 				og := &offGen{next: 1 << 20, rng: rand.New(rand.NewSource(int64(n)))}
 				c := vcase{Part: "valuemap", Impl: impl, Build: build, Prefill: prefill, CheckKeys: check}
 				key := impl
@@ -419,7 +501,7 @@ func valueMapPart() {
 	r.Note(build+".valuemap_exhaustive", fmt.Sprintf("all sequences of <=%d ops (Set/Delete) and <=%d ops (Set/SetSizeZero/Delete) over 4 keys (existing, in-window, overflow, beyond-end) on a section prefilled with %d sparse keys", r.Pick(4, 5), r.Pick(3, 4), P))
 
 	// random long sequences with adversarial key orders
-	nseq, nops := r.Pick(30, 300), r.Pick(5000, 5000)
+	nseq, nops := r.Pick(18, 300), r.Pick(3000, 5000)
 	gens := []string{"ascending", "descending", "backjump-small", "backjump-large", "duplicates", "span"}
 	for s := 0; s < nseq; s++ {
 		gen := gens[s%len(gens)]
@@ -449,7 +531,7 @@ func valueMapPart() {
 	for s := 0; s < ncross; s++ {
 		rng := r.SubRng(fmt.Sprintf("c05-vm-cross-%d", s))
 		c := vcase{Part: "valuemap", Impl: "compactmap", Build: build}
-		c.Ops, c.CheckKeys = genCrossing(rng, 250000)
+		c.Ops, c.CheckKeys = genCrossing(rng, 135000)
 		r.Case(map[string]interface{}{"part": "valuemap", "impl": "compactmap", "generator": "crossing", "n": s, "ops": len(c.Ops)})
 		runValueCaseNoLog(c)
 		r.Nontrivial(fmt.Sprintf("vm-cross/%s/%d", build, s))
@@ -482,6 +564,10 @@ func runValueCaseNoLog(c vcase) bool {
 					"input": inputClass(e, o.Role), "target": state, "build": build, "returned": "other"}
 				if got < 0 {
 					sig["returned"] = "negative"
+				}
+				if _, ok := aliasVictim(ref, o.Key); ok && e.st == 0 && got > 0 {
+					sig["alias"] = aliasTag
+					resyncAliases(m.Get, ref, o.Key)
 				}
 				if r.Violation(sig, map[string]interface{}{"msg": "Delete returned a wrong removed size (crossing run)", "got": got, "want": want, "at": i, "generator": "crossing"}) {
 					return false
@@ -609,15 +695,15 @@ func genCrossing(rng *rand.Rand, n int) ([]op, []uint64) {
 	for len(ops) < n {
 		x := rng.Intn(100)
 		switch {
-		case x < 70:
+		case x < 82:
 			cur += uint64(1 + rng.Intn(3))
 			ops = append(ops, op{Kind: "S", Key: cur, Off: og.take(), Size: int32(1 + rng.Intn(1000)), Role: "ascending"})
 			if rng.Intn(50) == 0 {
 				keys = append(keys, cur)
 			}
-		case x < 80 && len(keys) > 0:
+		case x < 89 && len(keys) > 0:
 			ops = append(ops, op{Kind: "S", Key: keys[rng.Intn(len(keys))], Off: og.take(), Size: int32(1 + rng.Intn(1000)), Role: "duplicate"})
-		case x < 90 && len(keys) > 0:
+		case x < 98 && len(keys) > 0:
 			ops = append(ops, op{Kind: "D", Key: keys[rng.Intn(len(keys))], Role: "existing"})
 		default:
 			// back-jump anywhere below the current key (absent key with high probability):
@@ -676,20 +762,32 @@ func relation(name, loader string, hasZero bool, liveV, reV uint64, distinct, en
 
 var ldbOpts = &opt.Options{BlockCacheCapacity: 2 * 1024 * 1024, WriteBuffer: 1 * 1024 * 1024, CompactionTableSizeMultiplier: 10}
 
-func openNm(kind, base string) (storage.NeedleMapper, error) {
+// openNm opens a needle map of the given kind over base.idx. The returned close function releases it:
+// for the memory kind it closes the index file directly (NeedleMap.Close would fsync it first, which
+// dominates the run time on a busy disk and is not under test here); the other kinds use their Close.
+func openNm(kind, base string) (storage.NeedleMapper, func(), error) {
 	f, err := os.OpenFile(base+".idx", os.O_RDWR|os.O_CREATE, 0644)
 	if err != nil {
-		return nil, err
+		return nil, nil, err
 	}
 	switch kind {
 	case "memory":
-		return storage.LoadCompactNeedleMap(f)
+		nm, err := storage.LoadCompactNeedleMap(f)
+		return nm, func() { f.Close() }, err
 	case "leveldb":
-		return storage.NewLevelDbNeedleMap(base+".ldb", f, ldbOpts)
+		nm, err := storage.NewLevelDbNeedleMap(base+".ldb", f, ldbOpts)
+		if err != nil {
+			return nil, nil, err
+		}
+		return nm, nm.Close, nil
 	case "sorted":
-		return storage.NewSortedFileNeedleMap(base, f)
+		nm, err := storage.NewSortedFileNeedleMap(base, f)
+		if err != nil {
+			return nil, nil, err
+		}
+		return nm, nm.Close, nil
 	}
-	return nil, fmt.Errorf("unknown kind %s", kind)
+	return nil, nil, fmt.Errorf("unknown kind %s", kind)
 }
 
 func copyFile(src, dst string) error {
@@ -734,6 +832,11 @@ var nmDirSeq int
 
 func runNmCase(c nmcase, dir string) bool {
 	r.Case(c)
+	return runNmCaseQuiet(c, dir)
+}
+
+// runNmCaseQuiet: the case file was written by the caller (large op lists)
+func runNmCaseQuiet(c nmcase, dir string) bool {
 	nmDirSeq++
 	base := filepath.Join(dir, fmt.Sprintf("n%d", nmDirSeq))
 	defer func() {
@@ -742,14 +845,9 @@ func runNmCase(c nmcase, dir string) bool {
 			os.RemoveAll(m)
 		}
 	}()
-	nm, err := openNm(c.Kind, base)
+	nm, closeNm, err := openNm(c.Kind, base)
 	r.Must(err, "open needle map "+c.Kind)
-	closed := false
-	defer func() {
-		if !closed {
-			nm.Close()
-		}
-	}()
+	defer closeNm()
 	ref := refMap{}
 	keys := map[uint64]bool{}
 	rawDelete := false  // a delete hit a key that is not live with size>0 (a Volume never issues that)
@@ -780,6 +878,24 @@ func runNmCase(c nmcase, dir string) bool {
 			}
 			if e.st == 1 {
 				e.st = 2
+			} else if _, ok := aliasVictim(ref, o.Key); ok && e.st == 0 {
+				// deleting an absent key that aliases a stored one: see whether the stored keys survived
+				hit := false
+				for k2, e2 := range ref {
+					if k2 != o.Key && e2.st == 1 && (o.Key-k2)%(1<<32) == 0 {
+						if _, sz, ok2 := nmGet(nm)(k2); !ok2 || isDeletedSize(sz) {
+							hit = true
+						}
+					}
+				}
+				if hit {
+					r.Eval(1)
+					sig := lib.Sig{"op": "delete", "class": "deleted-another-key", "impl": c.Kind, "level": "needlemap", "alias": aliasTag, "build": build}
+					if r.Violation(sig, map[string]interface{}{"msg": "deleting a key that was never inserted removed another key", "deleted_key": o.Key, "case": c}) {
+						okAll = false
+					}
+					resyncAliases(nmGet(nm), ref, o.Key)
+				}
 			}
 			r.Count("nm_delete", 1)
 		}
@@ -796,14 +912,24 @@ func runNmCase(c nmcase, dir string) bool {
 		return false
 	}
 	live := countersOf(nm)
-	_ = nm.Sync()
+	// does the sequence contain two keys congruent modulo 2^32? (classification of reload differences only)
+	congruent := false
+	{
+		low := map[uint64]int{}
+		for k := range keys {
+			low[k%(1<<32)]++
+			if low[k%(1<<32)] > 1 {
+				congruent = true
+			}
+		}
+	}
 
 	// reload: a map freshly loaded from a copy of the same .idx
 	for _, rk := range c.Reload {
 		nmDirSeq++
 		base2 := filepath.Join(dir, fmt.Sprintf("n%d", nmDirSeq))
 		r.Must(copyFile(base+".idx", base2+".idx"), "copy idx")
-		nm2, err := openNm(rk, base2)
+		nm2, closeNm2, err := openNm(rk, base2)
 		r.Must(err, "reload needle map "+rk)
 		loader := "doLoading"
 		if rk != "memory" {
@@ -811,6 +937,13 @@ func runNmCase(c nmcase, dir string) bool {
 		}
 		// lookups: live and reloaded must agree (normalised to live(offset,size) | not-live)
 		for k := range keys {
+			if ref.get(k).st == 0 {
+				// never inserted: judged against the reference (a foreign entry in either map is reported there)
+				if !checkGet("needlemap", rk, nmGet(nm2), ref, k, "", c) {
+					okAll = false
+				}
+				continue
+			}
 			o1, s1, ok1 := nmGet(nm)(k)
 			o2, s2, ok2 := nmGet(nm2)(k)
 			l1 := ok1 && !isDeletedSize(s1)
@@ -820,6 +953,9 @@ func runNmCase(c nmcase, dir string) bool {
 				e := ref.get(k)
 				sig := lib.Sig{"op": "reload", "class": "lookup-differs", "live_kind": c.Kind, "reload_kind": rk, "level": "needlemap",
 					"input": inputClass(e, ""), "build": build}
+				if congruent && (c.Kind == "memory" || rk == "memory") {
+					sig["alias"] = aliasTag
+				}
 				if r.Violation(sig, map[string]interface{}{"msg": "lookup after reload differs from the live map", "key": k,
 					"live": []interface{}{ok1, o1, s1}, "reloaded": []interface{}{ok2, o2, s2}, "case": c}) {
 					okAll = false
@@ -850,6 +986,9 @@ func runNmCase(c nmcase, dir string) bool {
 				}
 				rel := relation(name, loader, hasZero, a, b, uint64(len(putKeys)), entries, uint64(re.FileCount))
 				sig["relation"] = rel
+				if congruent && loader == "doLoading" {
+					sig["alias"] = aliasTag
+				}
 				if r.Violation(sig, map[string]interface{}{"msg": "counter after reload differs from the live counter", "counter": name,
 					"live": live, "reloaded": re, "live_kind": c.Kind, "reload_kind": rk, "case": c}) {
 					okAll = false
@@ -864,9 +1003,9 @@ func runNmCase(c nmcase, dir string) bool {
 		}
 
 		if rk == "sorted" && len(c.SortedDeletes) > 0 {
-			okAll = sortedDeletes(c, nm2, base2, ref, keys) && okAll // closes nm2
+			okAll = sortedDeletes(c, nm2, closeNm2, base2, ref, keys) && okAll // closes nm2
 		} else {
-			nm2.Close()
+			closeNm2()
 		}
 		matches, _ := filepath.Glob(base2 + "*")
 		for _, m := range matches {
@@ -878,14 +1017,23 @@ func runNmCase(c nmcase, dir string) bool {
 
 // sortedDeletes: deletions through the sorted read-only map (the path of a volume whose
 // .dat lives on a remote tier: noWriteCanDelete), then a second reload.
-func sortedDeletes(c nmcase, nm storage.NeedleMapper, base string, ref refMap, keys map[uint64]bool) bool {
+func sortedDeletes(c nmcase, nm storage.NeedleMapper, closeNm func(), base string, ref refMap, keys map[uint64]bool) bool {
 	okAll := true
+	indeterminate := map[uint64]bool{} // keys whose delete returned an error: their state after a reload is not judged
+	var firstKey uint64
+	for _, o := range c.Ops {
+		if o.Kind == "S" || o.Kind == "D" {
+			firstKey = o.Key // key of the first .idx entry (every S/D of the live map appends one for the memory kind)
+			break
+		}
+	}
 	for _, k := range c.SortedDeletes {
 		e := ref.get(k)
 		err := nm.Delete(types.NeedleId(k), types.ToOffset(8*1024*1024))
 		r.Eval(1)
 		r.Count("sorted_delete", 1)
 		if err != nil {
+			indeterminate[k] = true
 			if e.st == 1 {
 				sig := lib.Sig{"op": "delete", "class": "delete-error", "impl": "sorted", "level": "needlemap", "input": inputClass(e, ""), "build": build}
 				if strings.Contains(err.Error(), "bad file descriptor") {
@@ -900,21 +1048,29 @@ func sortedDeletes(c nmcase, nm storage.NeedleMapper, base string, ref refMap, k
 		} else if e.st == 1 {
 			e.st = 2
 		}
-		if !checkGet("needlemap", "sorted", nmGet(nm), ref, k, "", c) {
+		if !indeterminate[k] && !checkGet("needlemap", "sorted", nmGet(nm), ref, k, "", c) {
 			okAll = false
 		}
 	}
 	// the other keys must be unaffected
 	for k := range keys {
-		if !checkGet("needlemap", "sorted", nmGet(nm), ref, k, "", c) {
+		if !indeterminate[k] && !checkGet("needlemap", "sorted", nmGet(nm), ref, k, "", c) {
 			okAll = false
 		}
 	}
 	// reload once more from the (possibly appended) index
-	nm.Close()
-	nm3, err := openNm("sorted", base)
+	closeNm()
+	nm3, closeNm3, err := openNm("sorted", base)
 	r.Must(err, "second reload of sorted map")
+	var ks []uint64
 	for k := range keys {
+		ks = append(ks, k)
+	}
+	sort.Slice(ks, func(i, j int) bool { return ks[i] < ks[j] })
+	for _, k := range ks {
+		if indeterminate[k] {
+			continue
+		}
 		e := ref.get(k)
 		o2, s2, ok2 := nmGet(nm3)(k)
 		l2 := ok2 && !isDeletedSize(s2)
@@ -922,22 +1078,24 @@ func sortedDeletes(c nmcase, nm storage.NeedleMapper, base string, ref refMap, k
 		want := e.st == 1
 		if l2 != want || (want && (o2 != e.off || s2 != e.size)) {
 			sig := lib.Sig{"op": "reload", "class": "lookup-differs", "live_kind": "sorted", "reload_kind": "sorted", "level": "needlemap",
-				"input": inputClass(e, ""), "after": "sorted-delete", "build": build}
-			if r.Violation(sig, map[string]interface{}{"msg": "lookup after deleting through the sorted map and reloading differs from the reference",
+				"input": inputClass(e, ""), "after": "sorted-delete", "build": build, "victim": "other"}
+			if k == firstKey {
+				sig["victim"] = "key-of-first-idx-entry"
+			}
+			if r.Violation(sig, map[string]interface{}{"msg": "a key that was not touched by the deletes through the sorted map reads differently after reloading",
 				"key": k, "reloaded": []interface{}{ok2, o2, s2}, "ref_state": e.st, "ref_off": e.off, "ref_size": e.size, "case": c}) {
 				okAll = false
 			}
-			break
 		}
 	}
-	nm3.Close()
+	closeNm3()
 	return okAll
 }
 
 func needleMapPart() {
 	dir := r.SubDir("nm")
-	keys := []uint64{7, 3, 7 + 1<<32, 900}
-	roles := []string{"plain", "smaller-than-first", "beyond-span", "plain"}
+	keys := []uint64{7, 3, 7 + 1<<32}
+	roles := []string{"plain", "smaller-than-first", "beyond-span"}
 	type tmpl struct {
 		kind string
 		ki   int
@@ -953,7 +1111,7 @@ func needleMapPart() {
 	}
 	for _, kind := range []string{"memory", "leveldb"} {
 		for pass, al := range [][]tmpl{alpha, alphaZ} {
-			maxLen := r.Pick(4, 5)
+			maxLen := r.Pick(3, 5)
 			if pass == 1 {
 				maxLen = r.Pick(3, 4)
 			}
@@ -962,6 +1120,15 @@ func needleMapPart() {
 			}
 			n := 0
 			enumerate(make([]op, len(al)), maxLen, func(seq []int) bool {
+				if pass == 1 {
+					hasZ := false
+					for _, x := range seq {
+						hasZ = hasZ || al[x].zero
+					}
+					if !hasZ {
+						return true // enumerated by pass 0
+					}
+				}
 				og := &offGen{next: 64, rng: rand.New(rand.NewSource(int64(n)))}
 				c := nmcase{Part: "needlemap", Kind: kind, Build: build}
 				key := kind
@@ -998,11 +1165,30 @@ func needleMapPart() {
 			r.Count("nm_exhaustive_sequences_"+kind, int64(n))
 		}
 	}
-	r.Note(build+".needlemap_exhaustive", fmt.Sprintf("memory: all sequences of <=%d ops (Put/Delete) and <=%d (with size-0 puts) over keys {7,3,7+2^32,900}; leveldb: <=%d ops; counters and lookups compared with a fresh load of the same .idx at the end of every sequence",
-		r.Pick(4, 5), r.Pick(3, 4), r.Pick(2, 3)))
+	r.Note(build+".needlemap_exhaustive", fmt.Sprintf("memory: all sequences of <=%d ops (Put/Delete) and <=%d (with size-0 puts) over keys {7,3,7+2^32}; leveldb: <=%d ops; counters and lookups compared with a fresh load of the same .idx at the end of every sequence",
+		r.Pick(3, 5), r.Pick(3, 4), r.Pick(2, 3)))
+
+	// one large all-distinct sequence: the bloom filter of newNeedleMapMetricFromIndexFile (0.1 % false positives at
+	// capacity) is expected to miscount; whatever it does is measured, not assumed
+	{
+		rng := r.SubRng("c05-nm-bloom")
+		og := &offGen{next: 4096, rng: rng}
+		c := nmcase{Part: "needlemap", Kind: "memory", Build: build, Reload: []string{"sorted"}}
+		k := uint64(100)
+		for i := 0; i < 20000; i++ {
+			k += uint64(1 + rng.Intn(3))
+			c.Ops = append(c.Ops, op{Kind: "S", Key: k, Off: og.take(), Size: int32(1 + rng.Intn(1000)), Role: "ascending"})
+		}
+		small := c
+		small.Ops = nil
+		r.Case(map[string]interface{}{"part": "needlemap", "generator": "bloom: 20000 distinct ascending keys, no deletes", "case": small})
+		runNmCaseQuiet(c, dir)
+		r.Nontrivial("nm-bloom/" + build)
+		r.Count("nm_bloom_sequences", 1)
+	}
 
 	// random sequences: <=500 keys where counters of the bloom-filter loaders are compared
-	nseq := r.Pick(24, 240)
+	nseq := r.Pick(12, 240)
 	gens := []string{"ascending", "descending", "backjump-small", "backjump-large", "duplicates", "span"}
 	for s := 0; s < nseq; s++ {
 		gen := gens[s%len(gens)]
@@ -1013,7 +1199,7 @@ func needleMapPart() {
 		rng := r.SubRng(fmt.Sprintf("c05-nm-%d", s))
 		nops := 600
 		if s%6 >= 3 && kind == "memory" {
-			nops = 5000
+			nops = 3000
 		}
 		ops, _ := genOps(rng, gen, nops, s%2 == 0)
 		// shape the sequence the way a Volume drives its map: deletes only on live keys with size>0
@@ -1108,6 +1294,15 @@ func volRead(s *storage.Store, vid needle.VolumeId, key uint64) (readRes, []byte
 	return readRes{Class: "error:" + err.Error()}, nil
 }
 
+func volAlias(ref map[uint64]*volRef, key uint64) (uint64, bool) {
+	for k, e := range ref {
+		if e.st != 0 && k < key && (key-k)%(1<<32) == 0 {
+			return k, true
+		}
+	}
+	return 0, false
+}
+
 func volCounters(v *storage.Volume) counters {
 	return counters{int(v.FileCount()), int(v.DeletedCount()), v.ContentSize(), v.DeletedSize(), uint64(v.MaxFileKey())}
 }
@@ -1152,6 +1347,11 @@ func runVolCase(c volcase) bool {
 		r.Eval(1)
 		viol := func(class, msg string) {
 			sig := lib.Sig{"op": "get", "class": class, "impl": c.Kind, "level": "volume", "input": inClass(e), "build": build}
+			if class == "foreign-entry" {
+				if _, ok := volAlias(ref, k); ok {
+					sig["alias"] = aliasTag
+				}
+			}
 			if r.Violation(sig, map[string]interface{}{"msg": msg, "key": k, "read": res, "ref_state": e.st, "ref_len": len(e.data), "after": after, "case": c}) {
 				okAll = false
 			}
@@ -1191,6 +1391,9 @@ func runVolCase(c volcase) bool {
 			if err != nil {
 				// a write may be refused only for a reason the reference knows (none here)
 				sig := lib.Sig{"op": "put", "class": "write-refused", "impl": c.Kind, "level": "volume", "input": inClass(&volRef{st: 1, data: data, role: o.Role}), "build": build}
+				if _, ok := volAlias(ref, o.Key); ok && e.st == 0 && strings.Contains(err.Error(), "mismatching cookie") {
+					sig["alias"] = aliasTag
+				}
 				if r.Violation(sig, map[string]interface{}{"msg": "write refused: " + err.Error(), "key": o.Key, "at": i, "case": c}) {
 					okAll = false
 				}
@@ -1214,7 +1417,19 @@ func runVolCase(c volcase) bool {
 			if err != nil || int32(size) != want {
 				e2 := &volRef{st: e.st, data: e.data, role: o.Role}
 				sig := lib.Sig{"op": "delete", "class": "wrong-removed-size", "impl": c.Kind, "level": "volume", "input": inClass(e2), "build": build,
-					"target": []string{"absent", "live", "already-deleted"}[e.st]}
+					"target": []string{"absent", "live", "already-deleted"}[e.st], "returned": "other"}
+				if _, ok := volAlias(ref, o.Key); ok && e.st == 0 && size > 0 {
+					sig["alias"] = aliasTag
+					for k2, e2 := range ref {
+						if k2 != o.Key && e2.st != 0 && (o.Key-k2)%(1<<32) == 0 {
+							if res, _ := volRead(s, vid, k2); res.Class == "ok" {
+								e2.st = 1
+							} else {
+								e2.st = 2
+							}
+						}
+					}
+				}
 				if r.Violation(sig, map[string]interface{}{"msg": "delete returned a wrong size", "got": size, "want": want, "err": fmt.Sprint(err), "key": o.Key, "at": i, "case": c}) {
 					okAll = false
 				}
@@ -1291,7 +1506,7 @@ func runVolCase(c volcase) bool {
 }
 
 func volumePart() {
-	nseq := r.Pick(10, 80)
+	nseq := r.Pick(6, 80)
 	for s := 0; s < nseq; s++ {
 		kind := "memory"
 		if s%3 == 2 {
@@ -1425,9 +1640,31 @@ func main() {
 		r.Finish(0)
 	}
 
+	// the other offset width runs as a child process at the same time (its counts are merged at the end)
+	childDone := make(chan struct{})
+	isParent := os.Getenv("VERIF_CHILD_OUT") == "" && types.OffsetSize == 4
+	if isParent {
+		bin := os.Getenv("VERIF_BIN_5B")
+		if bin == "" {
+			r.Inconclusive("5BytesOffset build of the driver not available (VERIF_BIN_5B unset)")
+			close(childDone)
+		} else {
+			go func() {
+				defer close(childDone)
+				r.RunChild("5bytes", bin, nil)
+			}()
+		}
+	}
+	t0 := time.Now()
 	valueMapPart()
+	t1 := time.Now()
+	fmt.Fprintf(os.Stderr, "c05[%s]: valuemap part %.1fs\n", build, t1.Sub(t0).Seconds())
 	needleMapPart()
+	t2 := time.Now()
+	fmt.Fprintf(os.Stderr, "c05[%s]: needlemap part %.1fs\n", build, t2.Sub(t1).Seconds())
 	volumePart()
+	fmt.Fprintf(os.Stderr, "c05[%s]: volume part %.1fs\n", build, time.Since(t2).Seconds())
+	r.Note(build+".wall_s_per_part(valuemap,needlemap,volume)", []float64{t1.Sub(t0).Seconds(), t2.Sub(t1).Seconds(), time.Since(t2).Seconds()})
 
 	for _, name := range []string{"vm_set", "vm_delete", "nm_put", "nm_delete", "vol_write", "vol_delete", "vol_reopen_checkpoints", "nm_counter_checkpoints_memory", "nm_counter_checkpoints_leveldb", "nm_counter_checkpoints_sorted"} {
 		if r.Counter(name) == 0 {
@@ -1435,20 +1672,14 @@ func main() {
 		}
 	}
 
-	// the other offset width
-	if os.Getenv("VERIF_CHILD_OUT") == "" {
-		if types.OffsetSize == 4 {
-			bin := os.Getenv("VERIF_BIN_5B")
-			if bin == "" {
-				r.Inconclusive("5BytesOffset build of the driver not available (VERIF_BIN_5B unset)")
-			} else {
-				r.RunChild("5bytes", bin, nil)
-				if r.Counter("5bytes.build_5bytes") == 0 {
-					r.Inconclusive("the child binary is not a 5BytesOffset build")
-				}
-				if r.Counter("5bytes.vm_set") == 0 || r.Counter("5bytes.nm_put") == 0 || r.Counter("5bytes.vol_write") == 0 {
-					r.Inconclusive("the 5BytesOffset child observed nothing")
-				}
+	if isParent {
+		<-childDone
+		if os.Getenv("VERIF_BIN_5B") != "" {
+			if r.Counter("5bytes.build_5bytes") == 0 {
+				r.Inconclusive("the child binary is not a 5BytesOffset build (or did not finish)")
+			}
+			if r.Counter("5bytes.vm_set") == 0 || r.Counter("5bytes.nm_put") == 0 || r.Counter("5bytes.vol_write") == 0 {
+				r.Inconclusive("the 5BytesOffset child observed nothing")
 			}
 		}
 	}
